@@ -156,3 +156,13 @@ package header
 //@   ensures result1 == nil ==> !result0.IsZero() && validated(result0)
 //@   ensures result1 == nil && !trustedHeadOf(opts).IsZero() ==> passedVerify(trustedHeadOf(opts), result0)
 //@   ensures result1 != nil && !result0.IsZero() ==> asVerr(result1) != nil && asVerr(result1).SoftFailure
+
+// JSON form of a Hash (persisted head/tail pointers of the store). The byte-level hex coding is outside the
+// modelled fragment ([]byte is opaque): the pair is trusted to be inverse (axiom json-roundtrip in store.spec).
+//@ func (Hash).MarshalJSON(h)
+//@   trusted
+//@   ensures result1 == nil && result0 == jsonHash(h)
+//@ func (*Hash).UnmarshalJSON(h, data)
+//@   trusted
+//@   modifies elems(Bytes)
+//@   ensures result == nil ==> deref(h) == unjsonHash(data)
